@@ -555,6 +555,12 @@ func runC12LiveSwap(c *fw.Ctx, id string, r *rand.Rand) {
 	}
 	defer unix.Close(inj)
 	cfg := tupleCfg{src: [4]byte{198, 51, 100, byte(1 + r.Intn(200))}, dst: [4]byte{203, 0, 113, byte(1 + r.Intn(200))}, sport: uint16(1024 + r.Intn(60000)), dport: uint16(1024 + r.Intn(60000))}
+	if r.Intn(2) == 0 {
+		// the tuple's local side is an address this host owns on ANOTHER interface (the veth of the private namespace
+		// pair) while the frames arrive on lo - replies to a host's own address, VIPs on lo and asymmetric return paths
+		// look like this. What the capture accepts is decided by the tuple, not by the interface.
+		cfg.dst = [4]byte{10, 203, 0, 2}
+	}
 	type fl struct {
 		name string
 		spec packets.PacketFilterSpec
